@@ -37,6 +37,7 @@ var (
 type markerCodec struct {
 	id   byte
 	size uintptr
+	typ  reflect.Type // when set, what New allocates
 }
 
 func (m markerCodec) body() []byte                 { return []byte{0xEE, m.id, 0xEE} }
@@ -46,6 +47,9 @@ func (m markerCodec) Descriptor() plenccodec.Descriptor {
 	return plenccodec.Descriptor{Type: plenccodec.FieldTypeString}
 }
 func (m markerCodec) New() unsafe.Pointer {
+	if m.typ != nil {
+		return reflect.New(m.typ).UnsafePointer()
+	}
 	if m.size == unsafe.Sizeof("") {
 		return unsafe.Pointer(new(MarkStr))
 	}
@@ -245,9 +249,111 @@ func c17FirstUse(c *core.Ctx, idx int) {
 	}
 }
 
+// MarkNode refers to itself: once under a tag name that has a registration of its own, once plainly
+type MarkNode struct {
+	ID     int         `plenc:"1"`
+	Parent *MarkNode   `plenc:"2,ref"`
+	Kids   []*MarkNode `plenc:"3"`
+}
+
+// MarkTree refers to itself through a nested struct
+type MarkTree struct {
+	Root MarkBranch `plenc:"1"`
+	N    int        `plenc:"2"`
+}
+
+type MarkBranch struct {
+	Up *MarkTree `plenc:"1,ref"`
+	N  int       `plenc:"3"`
+}
+
+// MarkHolder holds the tagged pointers without being recursive itself
+type MarkHolder struct {
+	A *MarkNode `plenc:"1,ref"`
+	B *MarkTree `plenc:"2,ref"`
+	C *MarkNode `plenc:"3"`
+}
+
+// c17Recursive: a codec registered under a tag name for a type that refers to itself under that
+// very tag name. The registration is what the tagged field uses - inside the type itself (while its
+// own codec is still being built), through a nested struct, and in a holder type used before or
+// after; a second instance without the registration is not touched by it.
+func c17Recursive(c *core.Ctx, idx int) {
+	rec := c.Rec
+	r := c.Rand(idx)
+	cfg := model.Cfg{ProtoArrays: r.IntN(2) == 0, ProtoTime: r.IntN(2) == 0}
+	mk := func() *plenc.Plenc {
+		p := &plenc.Plenc{ProtoCompatibleArrays: cfg.ProtoArrays, ProtoCompatibleTime: cfg.ProtoTime}
+		p.RegisterDefaultCodecs()
+		return p
+	}
+	with, without := mk(), mk()
+	nodeT, treeT := reflect.TypeOf(MarkNode{}), reflect.TypeOf(MarkTree{})
+	idN, idT := byte(1+r.IntN(100)), byte(101+r.IntN(100))
+	with.RegisterCodecWithTag(nodeT, "ref", markerCodec{id: idN, typ: nodeT})
+	with.RegisterCodecWithTag(treeT, "ref", markerCodec{id: idT, typ: treeT})
+	mN, mT := []byte{0xEE, idN, 0xEE}, []byte{0xEE, idT, 0xEE}
+	id := 1 + r.IntN(60)
+	node := &MarkNode{ID: id, Parent: &MarkNode{ID: 7, Parent: &MarkNode{ID: 8}}}
+	tree := &MarkTree{Root: MarkBranch{Up: &MarkTree{N: 5}, N: 3}, N: id}
+	holder := &MarkHolder{A: &MarkNode{ID: 9}, B: &MarkTree{N: 9}}
+	fr := func(b []byte, idx int, body []byte) []byte {
+		b = append(b, byte(idx<<3|2), byte(len(body)))
+		return append(b, body...)
+	}
+	zz := func(n int) byte { return byte(n << 1) }
+	wantNode := fr([]byte{0x08, zz(id)}, 2, mN)
+	branch := fr(nil, 1, mT)
+	branch = append(branch, 0x18, zz(3))
+	wantTree := append(fr(nil, 1, branch), 0x10, zz(id))
+	wantHolder := fr(fr(nil, 1, mN), 2, mT)
+	type step struct {
+		name string
+		v    any
+		want []byte
+	}
+	steps := []step{{"the self-referring type", node, wantNode}, {"the type that refers to itself through a nested struct", tree, wantTree}, {"the holder of tagged pointers", holder, wantHolder}}
+	r.Shuffle(len(steps), func(i, j int) { steps[i], steps[j] = steps[j], steps[i] })
+	order := fmt.Sprintf("%s, then %s, then %s", steps[0].name, steps[1].name, steps[2].name)
+	for rep := 0; rep < 2; rep++ {
+		for _, st := range steps {
+			got, err, pn := marshal(with, nil, st.v)
+			rec.Eval(1)
+			if err != nil || pn != "" || !bytes.Equal(got, st.want) {
+				rec.Violation("registration-ignored", fmt.Sprintf("a codec registered under the tag name \"ref\" for a type that refers to itself under that tag name is not the one used (first uses in the order: %s): Marshal of %s gives %x, want %x (%v %s)", order, st.name, got, st.want, err, trunc1(pn)), nil)
+				return
+			}
+			back := reflect.New(reflect.TypeOf(st.v).Elem())
+			if err, pn := unmarshal(with, got, back.Interface()); err != nil || pn != "" {
+				rec.Violation("registration-ignored", fmt.Sprintf("Unmarshal of %s on the instance with the \"ref\" registrations fails (order: %s): %v %s\n  bytes %x", st.name, order, err, trunc1(pn), got), nil)
+				return
+			}
+			again, err, pn := marshal(with, nil, back.Interface())
+			if err != nil || pn != "" || !bytes.Equal(again, st.want) {
+				rec.Violation("registration-ignored", fmt.Sprintf("%s decoded and encoded again on the instance with the \"ref\" registrations gives %x, want %x (order: %s) (%v %s)", st.name, again, st.want, order, err, trunc1(pn)), nil)
+				return
+			}
+		}
+	}
+	// the instance without the registrations writes the fields with the types' own codecs
+	pl := cfg.Encode(reflect.ValueOf(node).Elem())
+	got, err, pn := marshal(without, nil, node)
+	rec.Eval(1)
+	if err != nil || pn != "" || !bytes.Equal(got, pl) {
+		rec.Violation("instance-leak", fmt.Sprintf("an instance without registrations encodes the self-referring type as %x, the documented encoding is %x (%v %s)", got, pl, err, trunc1(pn)), nil)
+		return
+	}
+	rec.Count("recursive_tagged_registrations", 1)
+	rec.NonTrivial(core.Hash64("recursive", order, fmt.Sprint(idx)))
+}
+
 func c17Case(c *core.Ctx, idx int) {
 	if c.Lane == "firstuse" {
 		c17FirstUse(c, idx)
+		return
+	}
+	if idx%13 == 7 {
+		c17Recursive(c, idx)
 		return
 	}
 	rec := c.Rec
